@@ -1006,7 +1006,21 @@ const KEY_BYTES: std::ops::RangeFrom<usize> = 64..;
 
 /// The identifier of a record.
 #[derive(Clone, Serialize, Deserialize, PartialEq, Eq, PartialOrd, Ord)]
+#[serde(try_from = "Bytes")]
 pub struct RecordIdentifier(Bytes);
+
+impl TryFrom<Bytes> for RecordIdentifier {
+    type Error = &'static str;
+
+    /// An identifier always contains a namespace id and an author id, followed by the key.
+    /// All accessors rely on this, so shorter byte strings are rejected when deserializing.
+    fn try_from(bytes: Bytes) -> Result<Self, Self::Error> {
+        if bytes.len() < KEY_BYTES.start {
+            return Err("record identifier is too short");
+        }
+        Ok(Self(bytes))
+    }
+}
 
 impl Default for RecordIdentifier {
     fn default() -> Self {
